@@ -12,7 +12,7 @@ pub fn def() -> PropDef {
         judge,
         run,
         shrink: Shrink::Bytes,
-        render: render_bytes,
+        render: render_seq_or_bytes,
         rule: "every input of the slot trees (<= k deviations from 3 baseline lines), byte trees (every string over a 16-byte alphabet up to depth d after every stem) and length / UTF-8 lists is parsed by v1::Header::try_from(&[u8]) (and try_from(&str) when valid UTF-8) and compared with the reference grammar; non-trivial = the input starts with `PROXY `; distinct = distinct 64-bit hash of the input (collection capped at 2^25)",
         assumptions: &[
             "the reference grammar (oracle::v1, oracle::ip) is the reading of property C01: first CR must be followed by LF, line <= 107 bytes, single-space separated fields, RFC 4291 IPv6 text with `::` standing for >= 1 group, ports `0|[1-9][0-9]{0,4}` <= 65535",
@@ -70,7 +70,17 @@ fn compare(acc: &mut Acc, entry: &str, input: &[u8], o: &o1::Verdict, got: Resul
     }
 }
 
-pub fn judge(input: &[u8], acc: &mut Acc) {
+pub fn judge(case: &[u8], acc: &mut Acc) {
+    match decode_seq(case) {
+        Some(parts) => {
+            history_differential(&parts, acc, &parse_entries());
+            judge_history_case(&parts, acc, warm_all, judge_plain)
+        }
+        None => judge_plain(case, acc),
+    }
+}
+
+pub fn judge_plain(input: &[u8], acc: &mut Acc) {
     let o = o1::verdict(input);
     let r = v1_bytes(input);
     acc.eval(1);
@@ -109,4 +119,5 @@ pub fn judge(input: &[u8], acc: &mut Acc) {
 pub fn run(run: &Run) {
     let b = v1_bounds(run.tier);
     explore_all(run, &v1_universes(&b));
+    explore_all(run, &seq_universes(run.tier, true, false));
 }
